@@ -25,6 +25,9 @@ type Case struct {
 	Target  string         `json:"target"` // device | cache | schema
 	Kind    string         `json:"kind"`   // error | restart
 	Point   int            `json:"point"`  // index into the fault-free call list of that collaborator (mod its length); -1 = enumerate all
+	// Op: "" = the fault meets TransactionSet(T); "cancel" = T is applied fault-free and the fault meets the rollback
+	// transaction of TransactionCancel (error faults only; an open transaction does not survive a restart by design)
+	Op string `json:"op,omitempty"`
 }
 
 func gen(t *rapid.T) *Case {
@@ -33,19 +36,23 @@ func gen(t *rapid.T) *Case {
 	c.Target = rapid.SampledFrom([]string{"device", "cache", "cache", "cache", "schema"}).Draw(t, "target")
 	c.Kind = rapid.SampledFrom([]string{"error", "error", "error", "restart"}).Draw(t, "kind")
 	c.Point = rapid.IntRange(0, 63).Draw(t, "point")
-	if rapid.IntRange(0, 59).Draw(t, "slow") == 0 {
+	// (rapid favours the bounds of a range: two interior values keep this rare, each slow case costs 2.3 s)
+	if rapid.IntRange(0, 9).Draw(t, "slow-a") == 4 && rapid.IntRange(0, 5).Draw(t, "slow-b") == 3 {
 		// not a failure at all: one cache call answers late (longer than every timeout data-server puts on it)
 		c.Target, c.Kind = "cache", "slow"
 	}
 	if os.Getenv("VERIF_TIER") == "thorough" && rapid.IntRange(0, 3).Draw(t, "enumerate") == 0 {
 		c.Point = -1
 	}
+	if c.Kind == "error" && rapid.IntRange(0, 5).Draw(t, "fault-in-cancel") == 0 {
+		c.Op = "cancel"
+	}
 	return c
 }
 
 var prop = vlib.Prop[*Case]{
 	ID: "C07",
-	Rule: "case = confirmed prefix history (0..4 transactions as in C01) + transaction T + one fault: a fault-free twin datastore B runs prefix and T with counting decorators and yields the exact list of collaborator calls T makes (target.Set; every cache Read / ReadCh / GetKeys / Modify; every schema GetSchema); datastore A runs the same prefix, then T with exactly one of those calls failing (error, empty read result, a cache call that answers 2.3 s late without failing, or a restart: the call panics, the datastore is abandoned, the cache is closed and reopened over the same directory and a new datastore is built); the fault point is drawn in the quick tier and enumerated over the whole call list for a quarter of the cases in the thorough tier; " +
+	Rule: "case = confirmed prefix history (0..4 transactions as in C01) + transaction T + one fault: a fault-free twin datastore B runs prefix and T with counting decorators and yields the exact list of collaborator calls T makes (target.Set; every cache Read / ReadCh / GetKeys / Modify; every schema GetSchema); datastore A runs the same prefix, then T with exactly one of those calls failing (error, empty read result, a cache call that answers 2.3 s late without failing, or a restart: the call panics, the datastore is abandoned, the cache is closed and reopened over the same directory and a new datastore is built); a sixth of the error faults meet the rollback transaction of a TransactionCancel(T) instead (the cancel is the repeated request, the twin cancels fault-free); the fault point is drawn in the quick tier and enumerated over the whole call list for a quarter of the cases in the thorough tier; " +
 		"oracle = device fault: TransactionSet returns an error, INTENDED and CONFIG dumps equal the pre-T dumps and the transaction slot is free; every fault: repeating T once the fault is gone succeeds and leaves device and intended store of A equal to those of B; " +
 		"non-trivial = T has a non-empty diff in the fault-free run and the fault actually fired; distinct = distinct (case, fault point)",
 	Gen:  gen,
@@ -110,6 +117,9 @@ func Exec(c *Case) (nontrivial bool, labels []string, fail *vlib.Failure) {
 	ctx := context.Background()
 	env := vlib.MustEnv()
 	st := vlib.GetStats("C07")
+	if c.Op == "cancel" {
+		return execCancel(ctx, c)
+	}
 	// --- fault-free twin B
 	b, ok := build(ctx, c, env.FreshName("c7b"))
 	defer b.h.DS.Stop()
@@ -152,6 +162,18 @@ func Exec(c *Case) (nontrivial bool, labels []string, fail *vlib.Failure) {
 		return false, []string{"discard"}, nil
 	}
 	points := []int{c.Point % n}
+	if c.Kind == "slow" && c.Point >= 0 {
+		// lateness matters where data-server bounds the call: the reads
+		var reads []int
+		for i, cc := range cacheCalls {
+			if cc.Op == "Read" || cc.Op == "ReadCh" {
+				reads = append(reads, i)
+			}
+		}
+		if len(reads) > 0 {
+			points[0] = reads[c.Point%len(reads)]
+		}
+	}
 	if c.Point < 0 {
 		points = points[:0]
 		for k := 0; k < n; k++ {
@@ -175,6 +197,124 @@ func Exec(c *Case) (nontrivial bool, labels []string, fail *vlib.Failure) {
 		} else {
 			st.Label("fault-not-reached")
 		}
+		if f != nil {
+			return nontrivial, keys(lab), f
+		}
+	}
+	return nontrivial, keys(lab), nil
+}
+
+// execCancel: the rollback transaction of TransactionCancel meets the fault. The cancel is the request that is
+// repeated; the fault-free twin cancels the same transaction without a fault.
+func execCancel(ctx context.Context, c *Case) (nontrivial bool, labels []string, fail *vlib.Failure) {
+	env := vlib.MustEnv()
+	st := vlib.GetStats("C07")
+	lab := map[string]bool{"target-" + c.Target: true, "kind-" + c.Kind: true, "fault-in-cancel": true}
+	b, ok := build(ctx, c, env.FreshName("c7b"))
+	defer b.h.DS.Stop()
+	if !ok {
+		st.Discard("prefix-step-refused")
+		return false, []string{"discard"}, nil
+	}
+	resB := b.h.SubmitStep(c.T)
+	if !resB.OK {
+		st.Discard("T-refused-fault-free")
+		return false, []string{"discard"}, nil
+	}
+	b.cdeco.Reset()
+	b.cdeco.Record = true
+	b.sdeco.Reset()
+	b.sdeco.Record = true
+	devCallsBefore := b.h.Dev.Calls()
+	errB := b.h.DS.TransactionCancel(ctx, resB.TxID)
+	b.cdeco.Record, b.sdeco.Record = false, false
+	if errB != nil {
+		st.Discard("cancel-refused-fault-free")
+		return false, []string{"discard"}, nil
+	}
+	cacheCalls := b.cdeco.CallList()
+	n := map[string]int{"device": b.h.Dev.Calls() - devCallsBefore, "cache": len(cacheCalls), "schema": b.sdeco.Count()}[c.Target]
+	if n == 0 {
+		st.Discard("no-call-to-" + c.Target + "-in-cancel")
+		return false, []string{"discard"}, nil
+	}
+	intB, _, devB := state(ctx, b)
+	points := []int{0}
+	if c.Point >= 0 {
+		points[0] = c.Point % n
+	} else {
+		points = points[:0]
+		for k := 0; k < n; k++ {
+			points = append(points, k)
+		}
+	}
+	for _, k := range points {
+		a, ok := build(ctx, c, env.FreshName("c7a"))
+		if !ok {
+			a.h.DS.Stop()
+			continue
+		}
+		resA := a.h.SubmitStep(c.T)
+		if !resA.OK {
+			a.h.FreeSlot(resA.TxID)
+			a.h.DS.Stop()
+			continue
+		}
+		phase := "apply"
+		where := fmt.Sprintf("fault %s/%s at call %d of TransactionCancel", c.Target, c.Kind, k)
+		switch c.Target {
+		case "device":
+			a.h.Dev.FailAt = a.h.Dev.Calls() + k + 1
+		case "cache":
+			a.cdeco.Reset()
+			a.cdeco.FaultAt, a.cdeco.FaultKind, a.cdeco.Record = k, "error", true
+			if k < len(cacheCalls) {
+				phase = phaseOf(cacheCalls[k], k, cacheCalls)
+				where += " (" + cacheCalls[k].String() + ", " + phase + ")"
+			}
+		case "schema":
+			a.sdeco.Reset()
+			a.sdeco.FaultAt, a.sdeco.FaultKind, a.sdeco.Record = k, "error", true
+			phase = "schema"
+		}
+		err1 := a.h.DS.TransactionCancel(ctx, resA.TxID)
+		a.cdeco.Record, a.sdeco.Record = false, false
+		fired := a.cdeco.Fired || a.sdeco.Fired || (c.Target == "device" && a.h.Dev.FailFired())
+		a.h.Dev.FailAt = 0
+		a.cdeco.FaultAt, a.sdeco.FaultAt = -1, -1
+		lab["phase-"+phase] = true
+		f := func() *vlib.Failure {
+			if !fired {
+				st.Label("fault-not-reached")
+				return nil
+			}
+			st.Label("fault-fired")
+			nontrivial = true
+			if c.Target == "device" && err1 == nil {
+				return vlib.Failf("C07:cancel:device-error-swallowed", "%s: the device refused the rollback but TransactionCancel returned no error", where)
+			}
+			if err1 != nil {
+				// the same request once the fault is gone
+				if err2 := a.h.DS.TransactionCancel(ctx, resA.TxID); err2 != nil {
+					return vlib.Failf("C07:cancel-retry-refused:"+c.Target, "%s: TransactionCancel failed (%v); repeating it after the fault is gone fails: %v", where, err1, err2)
+				}
+			}
+			if id, open, _ := a.h.DS.VerifPeekTransaction(); open {
+				return vlib.Failf("C07:cancel:slot-occupied", "%s: after the (repeated) cancel the slot still holds %q", where, id)
+			}
+			intA, _, devA := state(ctx, a)
+			if d := devA.Diff(devB); len(d) > 0 {
+				return vlib.Failf("C07:device-diverges:"+c.Target+":"+c.Kind+":"+phase, "%s: after the repeated cancel the device differs from the fault-free cancel (faulted vs fault-free):\n  %s", where, strings.Join(d, "\n  "))
+			}
+			if d := vlib.DiffKeys(intB.Keys(), intA.Keys()); len(d) > 0 {
+				return vlib.Failf("C07:intended-diverges:"+c.Target+":"+c.Kind+":"+phase, "%s: after the repeated cancel the intended store differs from the fault-free cancel (- fault-free only, + faulted only):\n  %s", where, strings.Join(d, "\n  "))
+			}
+			return nil
+		}()
+		if id, open, _ := a.h.DS.VerifPeekTransaction(); open {
+			a.h.FreeSlot(id)
+		}
+		a.h.DS.Stop()
 		if f != nil {
 			return nontrivial, keys(lab), f
 		}
